@@ -978,6 +978,23 @@ fn malformed_sets(rec: &mut Rec, lib: &dyn Lib, g: Grp, d: &Deal, partials: &[Ve
     set.push(&forged);
     let o = rec.call(lib, g, Op::SigFromShares, &set);
     rec.expect("C08", "duplicate-ids-error", !o.is_ok(), || "dup-id | from_shares accepted two different shares with one identifier".to_string());
+    // ... the same for key shares and public-key shares (what a set mixed from two dealings of one key looks like: one
+    // participant's identifier with two different values), the second copy at a drawn position, in the full set and in a
+    // set of just two entries
+    let mut fs = d.shares[b].clone();
+    fs[0] = d.shares[a][0];
+    let mut fp = d.pk_shares[b].clone();
+    fp[0] = d.pk_shares[a][0];
+    for small in [false, true] {
+        let mut set: Vec<&[u8]> = if small { vec![d.shares[a].as_slice()] } else { d.shares.iter().map(|p| p.as_slice()).collect() };
+        set.insert(x.below(set.len() as u64 + 1) as usize, &fs);
+        let o = rec.call(lib, g, Op::Combine, &set);
+        rec.expect("C08", "duplicate-ids-error", !o.is_ok(), || format!("dup-id | SecretKey::combine accepted two different shares with one identifier (set of {}): {}", set.len(), o.kind()));
+        let mut set: Vec<&[u8]> = if small { vec![d.pk_shares[a].as_slice()] } else { d.pk_shares.iter().map(|p| p.as_slice()).collect() };
+        set.insert(x.below(set.len() as u64 + 1) as usize, &fp);
+        let o = rec.call(lib, g, Op::PkFromShares, &set);
+        rec.expect("C08", "duplicate-ids-error", !o.is_ok(), || format!("dup-id | PublicKey::from_shares accepted two different shares with one identifier (set of {})", set.len()));
+    }
     // zero identifier
     let mut z = partials[a].clone();
     z[1] = 0;
